@@ -43,10 +43,10 @@ theorem Inv_step {s t : PState} (h : Inv s) (st : Step s t) : Inv t := by
   | probeDone i w p smp h1 h2 h3 => exact Inv_probeDone h i w p smp h1 h2 h3
   | schedKillTrue c h1 h2 => exact Inv_schedKillTrue h c
   | schedKillFalse c h1 h2 => exact Inv_schedKillFalse h c h1 h2
-  | schedStart i c w h1 h2 h3 h4 h5 h6 => exact Inv_schedStart h i c w h1 h2 h3 h4 h5 h6
+  | schedStart i c w h1 h2 h3 h4 h5 => exact Inv_schedStart h i c w h1 h2 h3 h4 h5
   | schedOther => exact Inv_schedOther h
   | startExec i c b h1 => exact Inv_startExec h i c b h1
-  | startDone i c w h1 h2 h3 => exact Inv_startDone h i c w h1 h2 h3
+  | startDone i c w h1 h2 => exact Inv_startDone h i c w h1 h2
   | killed i c w h1 h2 => exact Inv_killed h i c w h1 h2
   | shutdown i w h1 => exact Inv_shutdown h i w h1
   | setIdle i w b t g h1 => exact Inv_setIdle h i w b t g h1
